@@ -75,9 +75,12 @@ def known_len(x):
 
 
 def _k(t):
-    """constant as int, else the normalised term"""
+    """constant as int, else the normalised term in canonical form (a bound may itself mention an outer loop's variable: `(i + 1)..n`)"""
     c = P.const_of(t)
-    return c if c is not None else P.norm(t)
+    if c is not None:
+        return c
+    t = P.norm(t)
+    return P.norm(canon(t)) if isinstance(t, tuple) else t
 
 
 class Desc:
@@ -152,8 +155,11 @@ def domain_of(it):
 class Nest:
     """the loop nest of one effect (outermost first)"""
 
-    def __init__(self, eff=None, loops=None):
+    def __init__(self, eff=None, loops=None, fallback=None):
+        """fallback: a frame-level nest (frame_nest) consulted for element terms of loops that do not enclose this effect
+        (loop-carried values built in an inner or earlier loop); their variables get d = 0"""
         self.eff = eff
+        self.fallback = fallback
         self.loops = list(loops) if loops is not None else circ.loops_of(eff)
         self.desc = [Desc(l) for l in self.loops]
         self.doms = [d.domain() for d in self.desc]
@@ -180,8 +186,12 @@ class Nest:
             d = self.desc[k]
             if self.doms[k] is None:
                 continue
-            if self.loops[k] == it or d.it == it or (d.range is None and base in d.colls and (d.take is None or _takes(it) in (None, d.take))):
+            if self.loops[k] == it or d.it == it or (d.range is None and base in d.colls and _takes(it) == d.take):
                 return self.var(k)
+        if self.fallback is not None:
+            fv = self.fallback.var_for(it)
+            if fv is not None:
+                return ("lv", fv[1], fv[2], 0)
         return None
 
     def canon(self, t):
